@@ -93,6 +93,11 @@ CHECKS = {
             'BufferedSocket wraps a fake socket object whose recv/send follow a generated script; the module clock is replaced by a virtual clock the script advances, so timeout arithmetic is deterministic. Receive side: recv_until (multi-byte delimiters, maxsize, with_delimiter), recv_size, peek, recv, recv_close, each retried after Timeout, compared (1) with reference functions of the remaining stream, (2) with the same calls on the stream delivered in one piece, and (3) by the invariant returned + getrecvbuffer() + undelivered == stream after every call and every exception. Send side: send/sendall/buffer/flush under partial sends and timeouts with accepted + getsendbuffer() == handed-in at every step and complete delivery after the final flush. Netstring: payloads (incl. ":" "," digits, NUL, empty, oversize) through write_ns over a partial-send socket and back through read_ns under 1-byte chunking.',
             'Trusts the reference functions (calibrated against the pinned code: no disagreement in 209k probe calls) and the fake socket; delimiters non-empty; n >= 1 for recv/recv_size reference comparison; no timeouts inside Netstring reads.',
             'DESIGN.md section 2, C12'),
+    'C04': ('fault_enumeration',
+            'Hypothesis-generated save configurations; for each, the recorded file-system event trace is replayed with a process kill (fork + os._exit after power-loss emulation) at every point before/after every event; destination content oracle after each crash plus ordering oracle on the trace',
+            'Each generated configuration (text/binary, write pattern with chunks up to 70 000 bytes around the 8 KiB buffer, buffering, destination absent/present with shorter/longer/equal/empty old content, overwrite, relative/absolute path, part_file name, context-manager or explicit API) is executed in a forked child whose os.* functions, builtins.open and the returned file objects are wrapped, giving an event trace (os.open, chmod, f.write, f.flush, os.fsync, f.close, rename/link/unlink ...). Then one child per crash point (before and after every event: exhaustive for the trace) re-runs the save and is killed there; before dying, every file whose content differs from its last fsync snapshot is reverted to it (unsynced data does not survive; directory operations are durable in order). After each crash the destination must be absent-as-before, exactly old, or exactly the complete new content; after a normal exit it must be the new content with no part file. The trace itself must show one publication from the same directory after last write -> flush -> fsync. 1600 configurations / ~27 000 crash points in quick.',
+            'Trusts the interposition layer (vlib/fsio.py) to see every file operation boltons performs on the sandbox (os.* attribute calls, builtins.open, file-object methods); crashes inside system calls, kernel bugs and torn directory updates are out of scope.',
+            'DESIGN.md section 2, C04'),
 }
 
 NOT_YET = 'check not built yet in this revision of /verif (work in progress; see DESIGN.md section 8)'
